@@ -54,9 +54,9 @@ prop('C10',
      ['epsilon >= 0 for the WCA non-negativity certificate'])
 
 prop('C03',
-     [('R00.dyn', RG.rule_no_dynamic), ('R03.a', RC.rule_core), ('R03.b', RC.rule_mask_sites),
+     [('R00.dyn', RG.rule_no_dynamic), ('R03.a', RC.rule_core_only), ('R03.b', RC.rule_mask_sites),
       ('R03.c', RC.rule_noflag_limit),
-      ('R03.d', RP.rule_core), ('R09.p', RC.rule_purity), ('R09.h', RC.rule_history),
+      ('R03.d', RP.rule_core), ('R09.p', RC.rule_purity), ('R09.h', RC.rule_history_values),
       ('R16.w', RP2.rule_wiring), ('R16.c', RP2.rule_copy_and_frame), ('R10.h', RP.rule_history)],
      'Static analysis: (a) with the hard-core flag every closure returns exactly -1-gamma on r<sigma and r==sigma '
      '(three orderings enumerated on the extracted piecewise term), hence c+gamma=-1 there for every gamma; '
@@ -198,7 +198,7 @@ prop('C16',
 prop('C01',
      [('R00.dyn', RG.rule_no_dynamic), ('R01.a', RP2.rule_cost), ('R01.f', RP2.rule_post_solve),
       ('R16.w', RP2.rule_wiring), ('R16.c', RP2.rule_copy_and_frame),
-      ('R09.d', RC.rule_definition), ('R03.a', RC.rule_core), ('R09.p', RC.rule_purity), ('R09.h', RC.rule_history),
+      ('R09.d', RC.rule_definition), ('R03.a', RC.rule_core), ('R09.p', RC.rule_purity), ('R09.h', RC.rule_history_values),
       ('R14.c', RT.rule_pairtable_setitem),
       ('R15.f', RDn.rule_density), ('R07.t', RD.rule_roundtrip), ('R07.m', RD.rule_matrixarray_transforms),
       ('R13.5', _r13_arith), ('R13.6', RM.rule_dot_invert), ('R13.9', RM.rule_items)],
